@@ -190,8 +190,9 @@ def job_terms(chunk):
             continue
         val = vdesc(E.outcome(lambda: e._get_value()))
         deps = E.outcome(lambda: sorted(str(x) for x in e._get_dependencies()))
-        eq = (e == e2, hash(e) == hash(e2), {e: 1}.get(e2) == 1)
-        out.append(dg((str(e), val, deps, eq)))
+        # every interaction is an outcome (value or exception type): an exception in ONE configuration is a difference, not a crash
+        eq = E.outcome(lambda: (e == e2, hash(e) == hash(e2), {e: 1}.get(e2) == 1))
+        out.append(dg((E.outcome(lambda: str(e)), val, deps, eq)))
     return {"part": [(("terms", lo), out)], "n": len(terms)}
 
 
@@ -350,6 +351,28 @@ def job_unusual(_):
                     res = getattr(obj, mname)(**{pname: arg})
                     return (type(res).__name__, repr(sorted(d2.items())), sorted(str(k) for k in m2.tasks))
                 probes.append((f"{mname}({pname}=<{alab}>) on {olab}", thunk))
+    # programs over TWO managers: a definition in one reads a location of the other
+    for form in ("alias", "expr", "call", "iop", "set_value", "attr"):
+        def thunk2(form=form):
+            mc, md = xdeps.Manager(), xdeps.Manager()
+            cd, dd = {"a": 2, "z": 0, "o": T.PObj(q=1.0)}, {"k": 5}
+            c, d = mc.ref(cd, "c"), md.ref(dd, "d")
+            if form == "alias":
+                c["z"] = d["k"]
+            elif form == "expr":
+                c["z"] = c["a"] * d["k"] + 1
+            elif form == "call":
+                c["z"] = abs(d["k"] - c["a"])
+            elif form == "iop":
+                c["z"] += d["k"]
+            elif form == "set_value":
+                mc.set_value(c["z"], d["k"] * 2)
+            else:
+                c["o"].q = d["k"] + c["a"]
+            c["a"] = 7
+            return (repr(sorted((k, v if not isinstance(v, T.PObj) else sorted(v.__dict__.items())) for k, v in cd.items())), mc.dump(), md.dump(),
+                    sorted(str(k) for k in mc.tasks))
+        probes.append((f"two managers: {form}", thunk2))
     for label, thunk in probes:
         o = E.outcome(thunk)
         if o[0] == "ok":
